@@ -267,3 +267,18 @@ Example all_kinds_roundtrip : parse_msg (ser BE all_kinds) = POk (pad_canon all_
 Proof. apply roundtrip, all_kinds_built. Qed.
 Example all_kinds_not_fixpoint : pad_canon all_kinds <> all_kinds.
 Proof. vm_compute. discriminate. Qed.
+
+(* octetsToNextHeader is 16 bits wide and data_msg / create_submessage store `len_serialized() as
+   u16` ("TODO: Handle overflow?"): a DATA whose body exceeds 65535 bytes, followed by another
+   submessage, does not parse back (here: the HEARTBEAT is lost and the payload comes back empty).
+   Such a message is outside `built` (sm_len < 65536 fails).  RustDDS' Writer never produces one:
+   samples above the fragment size go out as DATAFRAGs. *)
+Definition oversize : message :=
+  Msg std_hdr [build_data LE (DData (zeros 65536)) 1 None [0; 0; 1; 4] [0; 0; 1; 3]; mk_sub 1 hb].
+Lemma oversize_refuted :
+  builtb oversize = false /\ parse_msg (ser LE oversize) <> POk (pad_canon oversize).
+Proof.
+  split; [vm_compute; reflexivity|]. intros H.
+  apply (f_equal (fun p => match p with POk m' => length (m_subs m') | _ => 0%nat end)) in H.
+  vm_compute in H. discriminate.
+Qed.
